@@ -35,7 +35,7 @@ pub struct C17 {
 }
 
 fn v(clause: &str, detail: String) -> Vec<StepViolation> {
-    vec![StepViolation { clause: clause.to_string(), detail, shape: None }]
+    vec![StepViolation { clause: clause.to_string(), detail, shape: None, soft: false }]
 }
 
 fn counter_key(node: &Node, db: &str) -> Option<String> {
